@@ -17,6 +17,8 @@ inductive Mode
   | comment
   | url          -- inside an unquoted url( … token
   | urlEnd       -- after whitespace inside an unquoted url: only more whitespace or ')' may follow
+  | badUrl       -- a non-printable code point inside an unquoted url: "consume the remnants of a bad url" (up to the
+                 --   next unescaped ')'); the token has no value, nothing is fetched
 deriving DecidableEq, Repr
 
 structure St where
@@ -61,12 +63,21 @@ def step (s : St) (b : UInt8) (next : Option UInt8) : Out × Bool :=
     if b == 41 then
       (.continue { s with mode := .normal, ident := [], urls := s.urls ++ [s.cur], cur := [], stack := s.stack.drop 1 }, false)
     else if isWs b then (.continue { s with mode := .urlEnd }, false)
-    else if b == 34 || b == 39 || b == 40 || b < 32 || b == 127 then (.broken, false)
+    else if b == 34 || b == 39 || b == 40 then (.broken, false)
+    else if b < 32 || b == 127 then (.continue { s with mode := .badUrl, cur := [] }, false)
     else if b == 92 then
       match next with
       | none => (.broken, false)
       | some n => if isNewline n then (.broken, false) else (.continue { s with cur := s.cur ++ [n] }, true)
     else (.continue { s with cur := s.cur ++ [b] }, false)
+  | .badUrl =>
+    if b == 41 then
+      (.continue { s with mode := .normal, ident := [], cur := [], stack := s.stack.drop 1 }, false)
+    else if b == 92 then
+      match next with
+      | none => (.broken, false)
+      | some n => if isNewline n then (.continue s, false) else (.continue s, true)
+    else (.continue s, false)
   | .urlEnd =>
     if b == 41 then
       (.continue { s with mode := .normal, ident := [], urls := s.urls ++ [s.cur], cur := [], stack := s.stack.drop 1 }, false)
